@@ -229,7 +229,9 @@ class Interp:
                 items = list(x)
             v = SSet([self.wrap(i) for i in items])
         elif isinstance(x, types.FunctionType):
-            if self.world.is_source_func(x):
+            if self.world.lib_model(x) is not None:
+                v = x
+            elif self.world.is_source_func(x):
                 v = self.funcref_of(x)
             else:
                 v = x
